@@ -37,10 +37,20 @@ def main(argv):
         rl = spec.get("recursionlimit")
         if rl:
             sys.setrecursionlimit(int(rl))
-        if spec.get("replay") is not None:
-            mod.replay(ctx, spec["replay"])
-        else:
-            mod.run(ctx)
+        ctx.start_watchdog()
+        try:
+            if spec.get("replay") is not None:
+                mod.replay(ctx, spec["replay"])
+            else:
+                mod.run(ctx)
+        except BaseException as e:  # noqa: B902
+            ctx.stop_watchdog()
+            sys.setrecursionlimit(1000)
+            if type(e).__name__ == "CaseTimeout":
+                ctx.report_hang()
+            else:
+                raise
+        ctx.stop_watchdog()
         sys.setrecursionlimit(1000)
         res.update(ctx.result())
         # distinct hashes go to a side file (8 bytes each)
@@ -52,6 +62,23 @@ def main(argv):
     except BaseException as e:  # noqa: B902
         sys.setrecursionlimit(1000)
         res["crash"] = "%s: %s\n%s" % (type(e).__name__, e, traceback.format_exc()[-3000:])
+        try:
+            from vf.common import library_origin
+
+            where = library_origin(e.__traceback__) if isinstance(e, Exception) else None
+            if where is not None and "ctx" in locals():
+                # the library raised where the monitor expected a result: that is an observation, not a harness failure
+                ctx.violation("unexpected-exception/%s@%s" % (type(e).__name__, where[0]), "no-unexpected-exception", {"shard": spec.get("shard")},
+                              expected="no exception from the library here", observed={"exception": "%s: %s" % (type(e).__name__, str(e)[:300]), "raised_in": "%s:%s (%s)" % where,
+                                                                                       "traceback": traceback.format_exc()[-1500:]})
+                res.update(ctx.result())
+                res["crash"] = None
+                import array
+
+                with open(a.out + ".hashes", "wb") as fh:
+                    array.array("Q", ctx.distinct).tofile(fh)
+        except Exception:  # noqa: B902
+            pass
     with open(a.out, "w") as fh:
         json.dump(res, fh)
     return 0
